@@ -67,6 +67,11 @@ CLAIMED = {
          "repeat: 1..3 sequential deliveries and 2 simultaneous ones per branch -> every sequential delivery Rollbacked, state == pre-state, later deliveries write nothing; faults: every command of the rollback transaction (BEGIN, undo-log SELECT FOR UPDATE, validation reads, each compensation, undo-log DELETE, COMMIT) x {error, connection lost before/after execution} -> tables equal the phase-one state with the undo log kept or the pre-state, never in between, Rollbacked only with the pre-state, clean retry restores and answers Rollbacked; late: 1..3 deliveries while phase one is held -> if answered Rollbacked the held local commit fails and commits nothing, final retry ends in the pre-state.",
          "The loser of two simultaneous deliveries may fail on the marker's unique key without an answer (the coordinator retries); only the following retry must be Rollbacked. The fake database ends the transaction when COMMIT fails. Hold at COMMIT relies on the fake's row-lock wait (1.5 s) like InnoDB's.",
          "DESIGN.md §4 C10"),
+ "C16": ("exploration",
+         "differential runtime monitor: the same generated statement program runs in one client process through the AT proxy, through the XA proxy and through the bare go-sql-driver against three fake databases with identical content; step results, statement journals, final committed contents and the coordinator's request log are compared",
+         "Programs of queries, DML (literal / bound arguments, duplicate keys, syntax errors, unknown tables), prepared statements, explicit local transactions (default, isolation level, read-only; commit or rollback), pinned connections, multi-statement texts, DDL and locking reads, optionally with the server closing the idle pooled connections in between. Outside a global transaction (AT and XA proxies): identical journal (text, arguments, order), identical results (rows, column names/types, affected, last insert id, error number and text), no coordinator traffic. Inside a committed AT global transaction: identical business statement results, identical committed data, same business statements in the same order.",
+         "DSN as in seata-go's documentation and tests (interpolateParams=true). Metadata lookups and undo_log traffic are excluded from the journal comparison. Three open findings (C16-K1..K3) are reported as KNOWN-FINDING; a program hit by one of them is not judged further. XA inside a global transaction is C17's subject.",
+         "DESIGN.md §4 C16"),
  "C18": ("exploration",
          "runtime monitor: ground-truth matched/changed rows recorded by the fake database for the business command vs. the images in the undo_log row read with an independent JSON reader",
          "One intercepted statement per case (UPDATE/DELETE with generated WHERE trees incl. parentheses, IN, BETWEEN, ORDER BY/LIMIT and parameters at every position; INSERT 1-4 rows; upserts; pk-changing updates) over five key shapes and both only-care-update-columns settings: changed rows ⊆ image rows ⊆ matched rows, exact field values, required columns present, pk changes rejected, rejected statements leave nothing durable.",
